@@ -2,6 +2,8 @@ package main
 
 import (
 	"fmt"
+	"os"
+	"runtime/debug"
 	"go/token"
 	"go/types"
 	"sort"
@@ -25,6 +27,7 @@ type Instance struct {
 	Secs    float64
 	Model   string
 	Output  string
+	File    string
 }
 
 type Obligation struct {
@@ -72,11 +75,14 @@ type FuncExec struct {
 	resNames   []string
 	preAxioms  bool
 	selfVars   map[*ssa.FreeVar]bool
+	regionBefore func(ssa.Instruction) bool
 	specErrs   []string
 	decEntry   []Term
 }
 
 type pathState struct {
+	stopped  bool
+	pred     *ssa.BasicBlock
 	callRes  map[string]Val
 	st       *State
 	loopSnap map[int]*State
@@ -272,6 +278,9 @@ func (fx *FuncExec) lookupVar(name string, pos token.Pos, st *State) (Val, bool)
 	}
 	pick := func(a *ssa.Alloc) (Val, bool) {
 		pv, ok := st.regs[a]
+		if !ok && fx.regionBefore != nil && fx.regionBefore(a) {
+			pv, ok = fx.val(st, a), true
+		}
 		if !ok {
 			return nil, false
 		}
@@ -315,6 +324,9 @@ func (fx *FuncExec) run() {
 	defer func() {
 		if r := recover(); r != nil {
 			fx.aborted = fmt.Sprintf("internal error: %v", r)
+			if os.Getenv("GVC_DEBUG") != "" {
+				fmt.Fprintf(os.Stderr, "%s\n", debug.Stack())
+			}
 		}
 	}()
 	fn := fx.fn
@@ -352,7 +364,7 @@ func (fx *FuncExec) run() {
 			vars[fv.Name()] = v
 		}
 	}
-	if fx.con != nil {
+	if fx.con != nil && fx.con.Start == "" {
 		env := &SpecEnv{st: st, old: st, vars: vars, fx: fx}
 		for i, cl := range fx.con.Requires {
 			t := env.boolTerm(cl.Expr)
@@ -376,7 +388,110 @@ func (fx *FuncExec) run() {
 		fx.resNames = append(fx.resNames, n)
 	}
 	ps := &pathState{st: st, variants: map[*LoopInfo][]Term{}, unrolls: map[*LoopInfo]int{}}
+	if fx.con != nil && fx.con.Start != "" {
+		fx.runRegion(ps)
+		return
+	}
 	fx.execBlock(ps, fn.Blocks[0], nil)
+}
+
+// runRegion: a region contract. Verification starts immediately before a call site with
+// an arbitrary state: every SSA value and every local variable defined before that point
+// is unconstrained (of its type), the heap is unconstrained. `requires` clauses are facts
+// assumed at that point (listed as unverified assumptions of the region), old() refers to
+// the state at that point.
+func (fx *FuncExec) runRegion(ps *pathState) {
+	st := ps.st
+	var startIn ssa.Instruction
+	for in, name := range fx.callOrd {
+		if name == fx.con.Start {
+			startIn = in
+		}
+	}
+	if startIn == nil {
+		fx.aborted = "drift: region start site " + fx.con.Start + " not found"
+		return
+	}
+	sb := startIn.Block()
+	if fx.inAnyLoop(sb) {
+		fx.aborted = "region start inside a loop is not supported"
+		return
+	}
+	// every value defined in a block that dominates the start block, or earlier in the start block
+	before := func(in ssa.Instruction) bool {
+		b := in.Block()
+		if b == sb {
+			for _, x := range sb.Instrs {
+				if x == startIn {
+					return false
+				}
+				if x == in {
+					return true
+				}
+			}
+			return false
+		}
+		return b.Dominates(sb)
+	}
+	// values defined before the start are materialised lazily (see val): unconstrained, of their type
+	fx.regionBefore = before
+	// parameter cells hold the (structural) parameter values again
+	for _, b := range fx.fn.Blocks {
+		for _, in := range b.Instrs {
+			if s, ok := in.(*ssa.Store); ok {
+				if p, ok := s.Val.(*ssa.Parameter); ok {
+					if a, ok := s.Addr.(*ssa.Alloc); ok && before(in) {
+						if ptr, ok := fx.val(st, a).(PtrV); ok {
+							st.store(ptr, st.regs[p])
+						}
+					}
+				}
+			}
+		}
+	}
+	// requires: assumed at the region start
+	vars := map[string]Val{}
+	for k, v := range fx.paramEntry {
+		vars[k] = v
+	}
+	env := fx.specEnv(ps, startIn.Pos(), vars)
+	for _, cl := range fx.con.Requires {
+		t := env.boolTerm(cl.Expr)
+		fx.noteSpecErr(env, cl)
+		st.assume(t)
+		fx.c.unsup("region assumption (unverified, holds where the region starts): %s", cl.Text)
+	}
+	fx.addObl("cover:region", "cover", fx.con.Prop, "region assumptions are satisfiable", fx.con.Line, true, st, tTrue, nil)
+	fx.entry = st.snapshot()
+	for id := range st.objs {
+		fx.entryObjs[id] = true
+	}
+	// execute the rest of the start block, then continue normally
+	ps.trail = append(ps.trail, fmt.Sprintf("b%d@%s", sb.Index, fx.con.Start))
+	started := false
+	for _, in := range sb.Instrs {
+		if in == startIn {
+			started = true
+		}
+		if !started {
+			continue
+		}
+		if fx.aborted != "" {
+			return
+		}
+		if fx.execControl(ps, sb, in) {
+			return
+		}
+	}
+}
+
+func (fx *FuncExec) inAnyLoop(b *ssa.BasicBlock) bool {
+	for _, li := range fx.loops {
+		if li.blocks[b] {
+			return true
+		}
+	}
+	return false
 }
 
 func (fx *FuncExec) noteSpecErr(env *SpecEnv, cl Clause) {
@@ -559,11 +674,12 @@ func (fx *FuncExec) execBlock(ps *pathState, blk *ssa.BasicBlock, pred *ssa.Basi
 					fx.addObl(fmt.Sprintf("inv-entry loop#%d.%s", li.ord, clauseName(cl, i)), "inv-entry", fx.prop(cl), cl.Text, cl.Line, false, st, t, ps.trail)
 				}
 			}
-			fx.havocLoop(ps, li)
 			if ps.loopSnap == nil {
 				ps.loopSnap = map[int]*State{}
 			}
-			ps.loopSnap[li.ord] = st.snapshot()
+			ps.loopSnap[-li.ord] = st.snapshot() // state on entry to the loop (before_loop)
+			fx.havocLoop(ps, li)
+			ps.loopSnap[li.ord] = st.snapshot() // state at the start of the current iteration (at_loop)
 			env = fx.specEnv(ps, pos, fx.loopVars(ps, li))
 			if li.spec != nil {
 				for _, cl := range li.spec.Inv {
@@ -584,10 +700,22 @@ func (fx *FuncExec) execBlock(ps *pathState, blk *ssa.BasicBlock, pred *ssa.Basi
 		}
 	}
 	ps.trail = append(ps.trail, fmt.Sprintf("b%d", blk.Index))
+	ps.pred = pred
 	for _, in := range blk.Instrs {
 		if fx.aborted != "" {
 			return
 		}
+		if fx.execControl(ps, blk, in) {
+			return
+		}
+	}
+}
+
+// execControl executes one instruction; it returns true when the instruction ended the block.
+func (fx *FuncExec) execControl(ps *pathState, blk *ssa.BasicBlock, in ssa.Instruction) bool {
+	st := ps.st
+	var pred *ssa.BasicBlock
+	{
 		switch x := in.(type) {
 		case *ssa.If:
 			cv, ok := st.regs[x.Cond].(Scalar)
@@ -596,36 +724,55 @@ func (fx *FuncExec) execBlock(ps *pathState, blk *ssa.BasicBlock, pred *ssa.Basi
 			}
 			if cv.T.S == "true" {
 				fx.execBlock(ps, blk.Succs[0], blk)
-				return
+				return true
 			}
 			if cv.T.S == "false" {
 				fx.execBlock(ps, blk.Succs[1], blk)
-				return
+				return true
 			}
 			fx.paths++
 			if fx.paths > fx.maxPaths {
 				fx.aborted = fmt.Sprintf("path limit %d exceeded", fx.maxPaths)
-				return
+				return true
 			}
 			other := ps.fork()
 			ps.st.assume(cv.T)
 			fx.execBlock(ps, blk.Succs[0], blk)
 			other.st.assume(tNot(cv.T))
 			fx.execBlock(other, blk.Succs[1], blk)
-			return
+			return true
 		case *ssa.Jump:
 			fx.execBlock(ps, blk.Succs[0], blk)
-			return
+			return true
 		case *ssa.Return:
 			fx.siteAsserts(ps, fmt.Sprintf("return#%d", fx.siteOrd[in]), "before", nil)
 			fx.doReturn(ps, x)
-			return
+			return true
 		case *ssa.Panic:
 			fx.addObl(fmt.Sprintf("safe:panic#%d", fx.siteOrd[in]), "safe", fx.propDefault(), "explicit panic is unreachable", fx.posStr(in.Pos()), false, st, tFalse, ps.trail)
-			return
+			return true
 		default:
-			fx.step(ps, in, pred)
+			fx.step(ps, in, ps.pred)
+			if ps.stopped {
+				return true
+			}
 		}
+	}
+	_ = pred
+	return false
+}
+
+// regionEnd: the ensures clauses of a region contract at its stop site.
+func (fx *FuncExec) regionEnd(ps *pathState) {
+	vars := map[string]Val{}
+	for k, v := range fx.paramEntry {
+		vars[k] = v
+	}
+	env := fx.specEnv(ps, token.NoPos, vars)
+	for i, cl := range fx.con.Ensures {
+		t := env.boolTerm(cl.Expr)
+		fx.noteSpecErr(env, cl)
+		fx.addObl("post."+clauseName(cl, i), "post", fx.prop(cl), cl.Text, cl.Line, false, ps.st, t, ps.trail)
 	}
 }
 
